@@ -195,7 +195,10 @@ class SqlalchemyRender:
                     raise NotImplementedError(f'Required list argument for: {op}')
 
             method = methods.get(op)
-            if method is not None:
+            if op == '+':
+                # sqlalchemy turns `+` over a string-typed operand into a concatenation (`||`, concat()): keep the operator that is written
+                col = arg0.op('+')(arg1)
+            elif method is not None:
                 sa_op = getattr(arg0, method)
 
                 col = sa_op(arg1)
@@ -344,7 +347,12 @@ class SqlalchemyRender:
             raise NotImplementedError(f'Function with namespace: {t.namespace}.{t.op}')
         op = getattr(sa.func, t.op)
         if t.from_arg is not None:
-            arg = t.args[0].to_string()
+            if t.op.lower() == 'extract':
+                # the first argument of EXTRACT is the name of a field (year, month ...), not a column
+                arg = t.args[0].to_string()
+            else:
+                # substring(a FROM 2): the first argument is an expression (it was rendered as the string 'a')
+                arg = self.to_expression(t.args[0])
             from_arg = self.to_expression(t.from_arg)
 
             fnc = op(arg, from_arg)
